@@ -1398,6 +1398,22 @@ fn search_gen(obs: &[&str]) {
             found.entry("dispatch").or_insert(json!({"what": "a method that takes parameters was called without `parameters`", "method": m, "replies": rs, "expected": "InvalidParameter(parameters)"}));
         }
     }
+    // a method without parameters is dispatched whether or not a `parameters` member is sent
+    for req in [json!({"method": "org.varlink.certification.Start"}), json!({"method": "org.varlink.certification.Start", "parameters": null}), json!({"method": "org.varlink.certification.Start", "parameters": {}})] {
+        explored += 1;
+        let rs = raw(req.clone());
+        if !(rs.len() == 1 && rs[0]["error"].is_null() && rs[0]["parameters"]["client_id"].is_string()) {
+            found.entry("dispatch").or_insert(json!({"what": "a method that takes no parameters", "request": req, "replies": rs, "expected": "the method's reply (a client id)"}));
+        }
+    }
+    // a dictionary parameter that is absent is a missing parameter, not an empty dictionary
+    {
+        explored += 1;
+        let rs = raw(json!({"method": "org.varlink.certification.Test08", "parameters": {"client_id": "x"}}));
+        if !is_err(&rs, "org.varlink.service.InvalidParameter") {
+            found.entry("dispatch").or_insert(json!({"what": "a dictionary parameter left out", "method": "Test08", "replies": rs, "expected": "InvalidParameter"}));
+        }
+    }
     for (m, p) in [("Test01", json!({"client_id": 7})), ("Test02", json!({"client_id": "x", "bool": "yes"})), ("Test03", json!({"client_id": "x"})), ("Test08", json!({"client_id": "x", "map": [1, 2]}))] {
         explored += 1;
         let rs = raw(json!({"method": format!("org.varlink.certification.{}", m), "parameters": p}));
